@@ -381,6 +381,9 @@ func main() {
 		}
 	}
 	assign := map[int][][]string{1: pkgAssignments(1), 2: pkgAssignments(2), 3: pkgAssignments(3)}
+	for n := 2; n <= 3; n++ {
+		assign[n] = append(assign[n], collidingPkgs(n)...)
+	}
 	// 4 files: quick = distinct go_packages in one directory; thorough = the 8
 	// representative assignments of pkgAssignments4 in one directory, two of them also in the
 	// nested / decoy (and mixed-spelling) placements.
@@ -394,8 +397,10 @@ func main() {
 		places4[0] = places4full                                                           // all distinct
 		places4[4] = []placement{{"flat", "plain"}, {"deep", "plain"}, {"decoy", "plain"}} // two imported files share a package
 	} else {
-		assign[4] = pkgAssignments4()[:1]
-		places4[0] = allPlacements[:1]
+		// quick: all distinct, in one directory - once with ordinary names, once with names whose concatenations coincide
+		assign[4] = append(pkgAssignments4()[:1], collidingPkgs(4)[0])
+		places4[0] = []placement{allPlacements[0], {"samename", "plain"}} // two real files with one spelling need four files
+		places4[1] = allPlacements[:1]
 	}
 	samples := map[string]string{ // n:mask:assignment index -> label
 		fmt.Sprintf("3:%d", 1<<1|1<<2|1<<5):         "diamond over 3 files: f0 imports f1 and f2, f1 imports f2",
